@@ -83,8 +83,13 @@ def check_multiclient_cfg(cfg: Optional[MultiClientPortCfg],
     if candidate_port_name != cfg.port_name:
         return None
 
-    # lookup the event that matches the configured claim event name
-    matched_claim_events = [e for e in itf.events.elements if e.name == cfg.claim_event_name]
+    # the claim and release events must be two different events
+    if cfg.claim_event_name == cfg.release_event_name:
+        raise MultiClientCfgError('Claim and release event names must be different')
+
+    # lookup the in-event that matches the configured claim event name
+    matched_claim_events = [e for e in itf.events.elements if e.name == cfg.claim_event_name
+                            and e.direction == EventDirection.IN]
     if not matched_claim_events:
         raise MultiClientCfgError(f'Claim event name "{cfg.claim_event_name}" not found')
     found_claim_event = matched_claim_events[0]
@@ -104,8 +109,9 @@ def check_multiclient_cfg(cfg: Optional[MultiClientPortCfg],
         raise MultiClientCfgError(f'"{cfg.claim_granting_reply_value}" is not a valid value of the'
                                   f' "{enum_instance.fqn}" return type')
 
-    # lookup the event that matches the configured release event name
-    matched_release_events = [e for e in itf.events.elements if e.name == cfg.release_event_name]
+    # lookup the in-event that matches the configured release event name
+    matched_release_events = [e for e in itf.events.elements if e.name == cfg.release_event_name
+                              and e.direction == EventDirection.IN]
     if not matched_release_events:
         raise MultiClientCfgError(f'Release event name "{cfg.release_event_name}" not found')
     found_release_event = matched_release_events[0]
